@@ -488,6 +488,37 @@ def op_minify(case, pm):
     return {'status': 'ok', 'out': out}
 
 
+def op_size_pair(case, pm):
+    """C17 in this interpreter: lengths of minify(base + option) and minify(base) for the all-off and the default base"""
+    src = get_src(case)
+    try:
+        compile(src, 'size_case', 'exec', dont_inherit=True)
+    except Exception:
+        return {'status': 'skip', 'reason': 'uncompilable here'}
+    option = case['option']
+    res = {'status': 'held', 'violations': [], 'pairs': 0, 'changed': 0}
+    for base_name in ('all_off', 'default'):
+        on = all_off_kwargs(pm) if base_name == 'all_off' else {}
+        off = dict(on)
+        on[str(option)] = True
+        off[str(option)] = False
+        if option == 'remove_annotations' and base_name == 'all_off':
+            continue
+        try:
+            a = pm.minify(src, **on)
+            b = pm.minify(src, **off)
+        except Exception:
+            continue
+        res['pairs'] += 1
+        if a != b:
+            res['changed'] += 1
+        if len(a) > len(b):
+            res['violations'].append({'kind': 'longer', 'base': base_name, 'detail': '%s on (%s base) gives %d > %d: %r vs %r' % (option, base_name, len(a), len(b), a[:200], b[:200])})
+    if res['violations']:
+        res['status'] = 'violation'
+    return res
+
+
 # ---- C01 cross-interpreter layer: run P and minify(P) in this interpreter, compare what each prints / raises / leaves in its namespace
 class _Sink(object):
     def __init__(self):
@@ -645,7 +676,7 @@ def op_run(case, pm):
     return res
 
 
-OPS = {'run': op_run, 'minify': op_minify, 'preserved': op_preserved, 'frozen': op_frozen, 'rt': op_rt, 'mc': op_mc, 'fold': op_fold, 'compile': op_compile, 'valeq': op_valeq}
+OPS = {'run': op_run, 'size_pair': op_size_pair, 'minify': op_minify, 'preserved': op_preserved, 'frozen': op_frozen, 'rt': op_rt, 'mc': op_mc, 'fold': op_fold, 'compile': op_compile, 'valeq': op_valeq}
 
 
 def main():
